@@ -14,6 +14,9 @@ the list without the task before the attach (conditional expression, if/else dia
 accumulator loop); sort() builds the ordering on a copy (list.sort() in place is refuted: a failing comparison leaves the shared
 list half sorted); reorder() works on copies; the group id check must count different incoming OBJECTS with equal ids (a
 container keyed by task id before the count makes it vacuous: refuted).
+Round 11: the duplicate count of the group id check must be reached on every way through the helper - a fast path decided by the
+receiving tree alone that answers without it is refuted; re-rooting may be written `self.parent = self.__wbs._root()`; the id
+helper may live in the class as a private static method.
 Not decided: a negative insert index that is not normalised only fails before the attach (IndexError, nothing changed) - accepted;
 anchors computed by try/except; id-count comparisons in other idioms (Counter, sorting) are UNDECIDED.
 """
@@ -415,7 +418,17 @@ def _facade_receiver(ctx, f, call) -> bool:
 
 
 def _is_reroot(ctx, f, node) -> bool:
-    """node is (after expanding hoisted locals) `self.__wbs._root().children.append(self)`"""
+    """node is (after expanding hoisted locals) `self.__wbs._root().children.append(self)` - or the target of the assignment that this
+    append performs, `self.parent = self.__wbs._root()`"""
+    if isinstance(node, ast.Attribute) and node.attr == 'parent' and isinstance(node.value, ast.Name) and node.value.id == f.self_name:
+        v = _assigned_value(f, node)
+        if v is None:
+            return False
+        try:
+            vx = Expander(ctx.prog, f, ctx.typer, inline=False).expand(v, cfg_of(f).node_containing(node))
+        except Exception:
+            return False
+        return bool(match(f"{f.self_name}._Task__wbs._root()", vx))
     if not isinstance(node, ast.Call):
         return False
     if match("self._Task__wbs._root().children.append(self)", node):
@@ -464,7 +477,8 @@ def cannot_reject(ctx, o, eff):
         else:
             o.site(g, g.node, f"{g.name} raises nothing")
     p = prog.func(SETTERS['parent'])
-    rr = [n for n in facts.calls_named(p, 'append') if _is_reroot(ctx, p, n)]
+    rr = [n for n in facts.calls_named(p, 'append') if _is_reroot(ctx, p, n)] or \
+        [tgt for st, tgt, val in facts.attr_stores(p, 'parent') if _is_reroot(ctx, p, tgt)]
     if rr:
         conds = facts.node_conditions(prog, p, rr[0], ctx.typer, expand=True)
         if any(facts.cond_is(t, q, "self._Task__wbs is None", want=False) for t, q in conds):
@@ -600,7 +614,9 @@ def prevalidated(ctx, o, eff):
         else:
             cap.replay(o)
     # ids: duplicates inside the argument are part of _has_id_intersection
-    h = prog.func('task._has_id_intersection')
+    # (the module helper may have been moved into the class as a private static method: Task.__has_id_intersection)
+    h = prog.funcs.get('task._has_id_intersection') or prog.funcs.get('task.Task.__has_id_intersection') or \
+        prog.func('task._has_id_intersection')
     verdict, node, why = _duplicate_id_check(ctx, h)
     if verdict is True:
         o.site(h, h.node, "the group id check also rejects equal ids inside the argument (element k+1 is then compatible with the tree that "
@@ -640,6 +656,30 @@ def _truth_conditions(ctx, h):
     return out
 
 
+def _is_global_name(ctx, h, name) -> bool:
+    """a builtin or a module-level name (function, class, constant) - not a local or parameter of h"""
+    import builtins
+    if name in h.params or flow_of(h).defs_of(name):
+        return False
+    return hasattr(builtins, name) or name in getattr(h.module, 'funcs', {}) or f"{h.module.name}.{name}" in ctx.prog.funcs or \
+        name in ctx.prog.classes or name.startswith('_') or name[:1].isupper()
+
+
+def _raw_condition(ctx, h, expanded):
+    """the test of h as written whose expansion is `expanded` (for messages)"""
+    ex = Expander(ctx.prog, h, ctx.typer, inline=True)
+    cfg = cfg_of(h)
+    for n in walk_no_nested(h.node):
+        if isinstance(n, (ast.If, ast.While, ast.IfExp)):
+            tn = cfg.node_containing(n.test)
+            try:
+                if tn is not None and same(ex.expand(n.test, tn), expanded):
+                    return n.test
+            except Exception:
+                pass
+    return None
+
+
 def _keyed_by_task_id(e):
     """e is a dict/set built with the task id as key: {t.id: t for ..}, {t.id for ..}, dict((t.id, t) for ..) - or a view of one"""
     m = match("$d.keys()", e) or match("$d.values()", e) or match("list($d)", e) or match("set($d)", e) or match("$d.items()", e)
@@ -656,9 +696,30 @@ def _duplicate_id_check(ctx, h):
     tcs = _truth_conditions(ctx, h)
     cands = []
     wrong = None
+    conditional = []        # (comparison, [(test, polarity)]): the right comparison, but only reached under further conditions
+
+    def nonempty(t2, p2, coll):
+        """the condition only says that `coll` has an element"""
+        t2, p2 = facts.norm_cond(t2, p2)
+
+        def incoming(x):
+            # the counted collection itself, or another collection of incoming tasks (built from the second parameter / a local, not
+            # selected by task id): when it is empty there is nothing that could carry a duplicate id
+            if same(x, coll):
+                return True
+            if isinstance(x, ast.Constant) or any(isinstance(n, ast.Attribute) and n.attr == 'id' for n in ast.walk(x)):
+                return False
+            return any(isinstance(n, ast.Name) and n.id != h.params[0] and not _is_global_name(ctx, h, n.id) for n in ast.walk(x))
+        if not isinstance(t2, (ast.Compare, ast.BoolOp, ast.UnaryOp)) and incoming(t2):
+            return p2
+        m_ = match("len($x) == 0", t2)
+        if m_ and incoming(m_['x']):
+            return not p2
+        m_ = match("len($x) > 0", t2) or match("len($x) != 0", t2) or match("len($x) >= 1", t2) or match("len($x)", t2)
+        return bool(m_ and incoming(m_['x']) and p2)
     for path in tcs:
-        for t, p in path:
-            t, p = facts.norm_cond(t, p)
+        for t0, p0 in path:
+            t, p = facts.norm_cond(t0, p0)
             if not (isinstance(t, ast.Compare) and len(t.ops) == 1):
                 continue
             op = type(t.ops[0])
@@ -684,11 +745,40 @@ def _duplicate_id_check(ctx, h):
                 parts = facts.comp_parts(idsrc)
                 if parts and isinstance(parts[0], ast.Attribute) and parts[0].attr == 'id' and isinstance(parts[1], ast.Name) and                         isinstance(parts[0].value, ast.Name) and parts[0].value.id == parts[1].id and not parts[3] and                         same(parts[2], tasks_side):
                     if differs:
-                        return True, None, None
+                        extras = [(t2, p2) for t2, p2 in path if t2 is not t0 and not nonempty(t2, p2, tasks_side)]
+                        if not extras:
+                            return True, None, None
+                        conditional.append((t, extras))
+                        continue
                     wrong = wrong or (False, h.node, ('duplicates inside the argument',
                                            f"the id-count comparison `{'' if p else 'not '}{src(t)[:80]}` does not answer True when the number of "
                                            f"distinct ids is smaller than the number of new tasks: two new tasks with equal ids pass the check "
                                            f"and the second is rejected after the first was attached"))
+    if conditional:
+        # the comparison is right, but it is not reached on every way through the helper
+        t, extras = conditional[0]
+        for t_b, extras_b in conditional[1:]:
+            if len(extras) == 1 and len(extras_b) == 1 and same(extras[0][0], extras_b[0][0]) and extras[0][1] != extras_b[0][1]:
+                return True, None, None        # the same comparison on both sides of one test
+        tree_only = [(t2, p2) for t2, p2 in extras
+                     if not any(isinstance(n, ast.Name) and n.id not in (h.params[0],) and not _is_global_name(ctx, h, n.id) for n in ast.walk(t2))]
+        counting_elsewhere = False
+        if tree_only:
+            t2, p2 = tree_only[0]
+            for path in tcs:
+                if any(same(a, t2) and q != p2 for a, q in path):
+                    for a, q in path:
+                        if not same(a, t2) and any(isinstance(n, ast.Call) and isinstance(n.func, ast.Name) and
+                                                   n.func.id in ('len', 'Counter', 'sorted', 'set', 'sum') for n in ast.walk(a)):
+                            counting_elsewhere = True
+        if tree_only and len(h.params) > 1 and not counting_elsewhere:
+            t2, p2 = tree_only[0]
+            raw = _raw_condition(ctx, h, t2) or t2
+            return False, h.node, ('duplicates inside the argument',
+                                   f"the duplicate check `{src(t)[:60]}` is only reached when `{'' if p2 else 'not '}{src(raw)[:70]}`, a condition on "
+                                   f"the receiving tree alone: in the other case the helper answers without counting the incoming ids, two new "
+                                   f"tasks with equal ids pass the up-front check and the second is rejected after the first was attached")
+        return None, h.node, f"the duplicate check `{src(t)[:60]}` is only reached under `{src(extras[0][0])[:70]}`: not decided"
     if wrong:
         return wrong        # no answer of the helper compares the two counts the right way round
     if cands:
